@@ -243,7 +243,7 @@ class Runner:
 def select(prop, tier, only):
     hs = [h for h in meta.scan() if prop in h.props or prop == "ALL"]
     if tier == "quick":
-        hs = [h for h in hs if h.tier == "quick"]
+        hs = [h for h in hs if h.prop_tier.get(prop, h.tier) == "quick"]
     if only:
         hs = [h for h in hs if only in h.fn]
     return hs
@@ -504,7 +504,7 @@ def conclude(R, prop, tier, seed, hs, smt_obls, smt_out, wall, partial):
         "wall_s": round(wall, 1),
         "violations": confirmed,
     }
-    if not partial:
+    if not partial and not os.environ.get("VERIF_REPO"):
         os.makedirs(EVID, exist_ok=True)
         with open(os.path.join(EVID, prop + ".json"), "w") as fh:
             json.dump(ev, fh, indent=1)
